@@ -11,6 +11,7 @@ atomic call on one cache:
   chdir  - the archive is opened by a RELATIVE name and the program changes its current directory while the function is in use: nothing
            that reached the archive is evaluated again, no second store appears, a pickled handle still addresses the same store.
   hashraises - a `safe` decorator with the raw keymap and an argument whose __hash__ raises (TypeError, KeyError, ValueError, RuntimeError).
+  jsonpurge - purge=True over a JSON file archive with non-text keys (the archive hands keys back as text): the memory bound still holds.
   reuse  - ONE decorator object applied to two functions (`memo = lru_cache(maxsize=3); f = memo(f0); g = memo(g0)`): each
            function's results are its own, each has its own account in info(), clear() of one leaves the other's counters.
 
@@ -55,6 +56,7 @@ def gen(tier, idx):
     if idx % 8 == 5: scen = 'names'
     if idx % 8 == 3: scen = 'chdir'
     if idx % 16 == 7: scen = 'hashraises'
+    if idx % 32 == 11: scen = 'jsonpurge'
     algo = ALGOS[(idx // 4) % 6]; safe = (idx // 24) % 2 == 1
     cfg = dict(scen=scen, algo=algo, safe=safe, seed=r.randrange(10 ** 6), maxsize=r.choice([1, 2, 3, 3, 5]), purge=r.random() < 0.35)
     if scen == 'reuse': cfg.update(algo=ALGOS[(idx // 8) % 6], safe=(idx // 48) % 2 == 1)
@@ -64,6 +66,11 @@ def gen(tier, idx):
         cfg.update(algo=['lru', 'lfu', 'mru', 'rr', 'no'][(idx // 8) % 5], safe=(idx // 40) % 2 == 1, arch='dir', purge=False, maxsize=r.choice([1, 2]),
                    keymap=['string', 'raw', 'stringr'][(idx // 8) % 3], calls=[r.randrange(len(NAME_ARGS)) for _ in range(24)])
     if scen == 'names': pass
+    elif scen == 'jsonpurge':
+        # purge=True over an archive that does not hand keys back as it got them (a JSON file turns int keys into text): whatever that does
+        # to what can be found again (F7), the memory bound is the cache's own business
+        cfg.update(algo=['lru', 'lfu', 'mru', 'rr'][(idx // 32) % 4], safe=(idx // 128) % 2 == 1, arch='filejson', purge=True, maxsize=r.choice([1, 2, 3]),
+                   keymap=['hash', 'string'][(idx // 256) % 2], calls=[r.randrange(12) for _ in range(30)])
     elif scen == 'hashraises':
         # a `safe` decorator, the raw keymap, an argument whose __hash__ raises (not only TypeError: any exception): the function's result is returned
         cfg.update(algo=ALGOS[(idx // 16) % 6], safe=True, arch=['none', 'dict'][(idx // 96) % 2], purge=False,
@@ -85,6 +92,8 @@ def gen(tier, idx):
     else:
         if algo in ('inf', 'no'): cfg['algo'] = r.choice(['lru', 'lfu', 'mru', 'rr'])
         cfg.update(arch=r.choice(['filejson', 'file', 'sql']), purge=False, bad=r.randrange(3, 8), calls=[r.randrange(10) for _ in range(30)])
+        # (fixed strata: every bounded algorithm meets every archive; the database table RAISES on a value it cannot bind, the files swallow it)
+        cfg.update(algo=['lru', 'lfu', 'mru', 'rr'][(idx // 16) % 4], arch=['sql', 'file', 'filejson'][(idx // 64) % 3], maxsize=[1, 2, 3][(idx // 16) % 3])
     return cfg
 
 
@@ -215,6 +224,17 @@ def run_case(cfg):
                         cfg['arch'], len(dict(h.items())), len(ref_), len(want)), arch=cfg['arch'])
             except Exception as e:
                 bad('C04', 'chdir-unpickle-raises', '%s: %s' % (type(e).__name__, str(e)[:80]), arch=cfg['arch'])
+        elif cfg['scen'] == 'jsonpurge':
+            from klepto.keymaps import hashmap, stringmap
+            def h(x): return 'v%d' % x
+            kw = dict(keymap=hashmap() if cfg['keymap'] == 'hash' else stringmap(), maxsize=cfg['maxsize'], purge=True, cache=kcache(archive=make_archive('filejson', tmp, 'jp')))
+            f = D(**kw)(h)
+            for x in cfg['calls']:
+                got = callf(f, x)
+                if got not in ('v%d' % x, _Raised): bad('C01', 'jsonpurge-wrong-result', 'h(%d) = %r' % (x, got))
+                if len(f.__cache__()) > cfg['maxsize']:
+                    bad('C05', 'purge-size-exceeds-maxsize', 'purge=True over a JSON file archive (%s keys): after h(%d) the cache holds %d entries' % (cfg['keymap'], x, len(f.__cache__())), keymap=cfg['keymap'])
+                    break
         elif cfg['scen'] == 'hashraises':
             from klepto.keymaps import keymap
             E = dict(TypeError=TypeError, KeyError=KeyError, ValueError=ValueError, RuntimeError=RuntimeError)[cfg['exc']]
@@ -286,9 +306,17 @@ def run_case(cfg):
             archived_before = {}
             for x in cfg['calls']:
                 snap = dict(make_archive(cfg['arch'], tmp, 'u').items())
+                resident = dict(f.__cache__())
+                raised = False
                 try: f(x)
-                except Exception: pass                  # a failing write-back may surface; what matters is what is left behind
+                except Exception: raised = True         # a failing write-back may surface; what matters is what is left behind
                 now = dict(make_archive(cfg['arch'], tmp, 'u').items())
+                if raised:
+                    # the write-back of a victim RAISED: the victim has not reached the archive, so it must not have left memory either
+                    gone_ = sorted(repr(k) for k in resident if k not in f.__cache__() and k not in now)
+                    if gone_:
+                        bad('C07', 'victim-lost-when-its-write-back-raises', 'f(%d) raised out of the eviction\'s archive write; the entries %s are now neither in memory nor in the archive' % (x, gone_[:3]))
+                        break
                 gone = sorted(k for k in snap if k not in now)
                 if gone:
                     bad('C07', 'unserialisable-victim-damages-archive', 'after f(%d) the archive lost the entries %r (it held %d, holds %d)' % (x, gone[:5], len(snap), len(now)))
@@ -351,7 +379,7 @@ def explore(prop, tier, offset=0):
         tags[o['cfg']['scen']] += 1; tags['algo=' + o['cfg']['algo']] += 1
         for v in o['viol']:
             if v['prop'] in (prop, '*'): viols.append(dict(v, prop=prop, i=0, cfg=o['cfg'], ops=[]))
-    n = sum(tags[s] for s in ('recur', 'twin', 'unser', 'reuse', 'names', 'chdir', 'hashraises'))
+    n = sum(tags[s] for s in ('recur', 'twin', 'unser', 'reuse', 'names', 'chdir', 'hashraises', 'jsonpurge'))
     # the recursive traces against the model (flat history of completions)
     import run_wrapper as rw
     trs = [o['trace'] for o in res if o.get('trace') is not None]
@@ -364,7 +392,7 @@ def explore(prop, tier, offset=0):
     tags['recursive-trace'] = len(rt); tags['recursive-completions'] = sum(len(t['recs']) for t in rt); tags['evictions-in-model-traces'] = wtags.get('evict', 0)
     tags['twin-trace'] = len(tt); tags['twin-external-writes'] = sum(1 for t in tt for x in t['recs'] if x['op'][0] == 'extput')
     return dict(suite='multi', traces=n + len(trs), evaluations=n + sum(len(t['recs']) for t in trs), distinct_nontrivial=n, tags=dict(tags), divergences=divs, violations=viols, samples=[res[0]['cfg'], res[2]['cfg']],
-                errors=errors[:3], rule=RULE, required_tags=['recur', 'twin', 'unser', 'reuse', 'names', 'chdir', 'recursive-trace', 'twin-trace'], config_histogram=None)
+                errors=errors[:3], rule=RULE, required_tags=['recur', 'twin', 'unser', 'reuse', 'names', 'chdir', 'hashraises', 'jsonpurge', 'recursive-trace', 'twin-trace'], config_histogram=None)
 
 
 def replay(prop, obj):
